@@ -304,11 +304,12 @@ def run_reader(cid, model, table, mode, limit, api):
         pass
 
 
-def run_writer(cid, model, rows):
+def run_writer(cid, model, rows, cid_path=None):
     import cutplace
     from cutplace import errors
 
-    writer = cutplace.Writer(cid, io.StringIO(newline=""))
+    # (bound to the CID object, or - like readers can be - to the path of the CID's file)
+    writer = cutplace.Writer(cid_path if cid_path is not None else cid, io.StringIO(newline=""))
     try:
         for row in rows:
             try:
@@ -381,7 +382,13 @@ def check_case(ctx, model, table, plan):
                     # fixed by the protocol (it matters when blank is not an allowed character): both are accepted
                     padded_rows = [[c.ljust(w) for c, w in zip(r, model.widths())] if len(r) == len(model.fields) else r for r in data_rows]
                     alternatives.append(predict_write(model, padded_rows))
-                run_writer(cid, model, data_rows)
+                cid_path = None
+                if not via_add_check and (len(table) + index) % 3 == 0:
+                    cid_path = os.path.join(ctx.tmp, "c20_writer_cid.csv")
+                    with open(cid_path, "w", encoding="utf-8", newline="") as f:
+                        f.write(storage.delimited_text(cid_rows(model, classes, classes)))
+                    ctx.count("writers.bound-by-cid-path")
+                run_writer(cid, model, data_rows, cid_path)
             else:
                 want = predict_read(model, raw, mode, limit)
                 run_reader(cid, model, table, mode, limit, api)
